@@ -532,7 +532,13 @@ func (p *P) onlyCalledFrom(rule, callee string, allowed ...string) []CallSite {
 		if cs.Instr != nil {
 			where = p.c.InstrPos(cs.Instr)
 		}
-		if okSet[caller] {
+		allowedCaller := okSet[caller]
+		for a := range okSet {
+			if strings.HasPrefix(caller, a+"$") {
+				allowedCaller = true // a closure nested in an allowed function
+			}
+		}
+		if allowedCaller {
 			found++
 			keep = append(keep, cs)
 			p.r.OK(rule, fmt.Sprintf("%s called from %s", callee, caller), where, "caller is in the allowed set")
